@@ -141,6 +141,9 @@ pub fn mark() -> AllocStats {
 
 /// CPU time consumed by the calling thread, in seconds.
 pub fn thread_cpu_s() -> f64 {
+    if cfg!(miri) {
+        return 0.0; // the interpreter has no CPU-time clock
+    }
     let mut ts = libc::timespec { tv_sec: 0, tv_nsec: 0 };
     unsafe {
         libc::clock_gettime(libc::CLOCK_THREAD_CPUTIME_ID, &mut ts);
